@@ -2554,6 +2554,15 @@ CMR_ERROR CMRthreesumCompose(CMR* cmr, CMR_CHRMAT* first, CMR_CHRMAT* second, si
     return CMR_ERROR_INPUT;
   }
 
+  /* The special rows/columns must be distinct. */
+  if (firstSpecialRows[0] == firstSpecialRows[1] || firstSpecialColumns[0] == firstSpecialColumns[1]
+    || firstSpecialColumns[0] == firstSpecialColumns[2] || firstSpecialColumns[1] == firstSpecialColumns[2]
+    || secondSpecialRows[0] == secondSpecialRows[1] || secondSpecialRows[0] == secondSpecialRows[2]
+    || secondSpecialRows[1] == secondSpecialRows[2] || secondSpecialColumns[0] == secondSpecialColumns[1])
+  {
+    return CMR_ERROR_INPUT;
+  }
+
   /* Number of nonzeros. */
   size_t firstMainNumNonzeros = 0;
   size_t secondMainNumNonzeros = 0;
